@@ -124,6 +124,9 @@ func Digest(b []byte) string {
 // OpContent is the function every `op` output is computed with; the reference
 // model calls the same function on its own evaluation of the graph.
 func OpContent(name string, inputs [][]byte, params []string, outIdx int, padTo int) []byte {
+	if padTo < 0 {
+		return []byte{} // (-n -1: the command legitimately produces empty outputs)
+	}
 	ds := make([]string, len(inputs))
 	for i, b := range inputs {
 		ds[i] = Digest(b)
@@ -163,7 +166,10 @@ func tokenize(src string) ([]token, error) {
 	for i < len(src) {
 		c := src[i]
 		switch {
-		case c == ' ' || c == '\t' || c == '\n':
+		case c == ' ' || c == '\t':
+			i++
+		case c == '\n':
+			toks = append(toks, token{";", true})
 			i++
 		case c == '#' && (i == 0 || src[i-1] == ' '):
 			return toks, nil
@@ -214,6 +220,8 @@ type shellRun struct {
 	cwd    string
 	out    []byte
 	script string
+	// `set -e` / `set -o pipefail`
+	errexit, pipefail bool
 }
 
 // Exec runs a `bash -c` script. It returns combined output and an error for a
@@ -230,6 +238,7 @@ func (sh *Shell) Exec(script string) ([]byte, error) {
 	signal := ""
 	i := 0
 	skip := false
+	pipeStatus := 0 // rightmost non-zero status of the earlier stages of the current pipeline
 	for i < len(toks) {
 		// collect one simple command
 		var words []string
@@ -251,11 +260,26 @@ func (sh *Shell) Exec(script string) ([]byte, error) {
 			if signal != "" {
 				return r.out, &ExitError{Code: -1, Signal: signal}
 			}
+			lastStage := i >= len(toks) || toks[i].s != "|"
+			if lastStage {
+				if r.pipefail && status == 0 && pipeStatus != 0 {
+					status = pipeStatus
+				}
+				pipeStatus = 0
+			} else if status != 0 {
+				pipeStatus = status
+			}
+			// errexit: a failing command ends the shell unless it is a non-final
+			// element of an && list (bash: "part of any command executed in a && or
+			// || list except the command following the final && or ||")
+			if r.errexit && lastStage && status != 0 && (i >= len(toks) || toks[i].s == ";") {
+				return r.out, &ExitError{Code: status}
+			}
 		}
 		if i < len(toks) {
 			switch toks[i].s {
 			case "&&":
-				skip = status != 0
+				skip = skip || status != 0
 			case "|":
 				// pipeline: every stage runs, the status is that of the last
 				// stage (bash without pipefail). Only stages that neither read
@@ -312,6 +336,64 @@ func (r *shellRun) simple(w []string, redir, redirTo string) (int, string) {
 		_, _, _, abs, _ := fs.walk(r.cwd, w[1])
 		r.cwd = abs
 		return 0, ""
+	case "set":
+		for k := 1; k < len(w); k++ {
+			a := w[k]
+			switch {
+			case a == "-o" || a == "+o":
+				if k+1 < len(w) {
+					k++
+					switch w[k] {
+					case "pipefail":
+						r.pipefail = a == "-o"
+					case "errexit":
+						r.errexit = a == "-o"
+					case "nounset":
+					default:
+						s.HarnessFail("mini-shell: unknown set -o option " + w[k])
+					}
+				}
+			case strings.HasPrefix(a, "-") || strings.HasPrefix(a, "+"):
+				for _, f := range a[1:] {
+					switch f {
+					case 'e':
+						r.errexit = a[0] == '-'
+					case 'u', 'x':
+					case 'o':
+						if k+1 < len(w) {
+							k++
+							if w[k] == "pipefail" {
+								r.pipefail = a[0] == '-'
+							}
+						}
+					default:
+						s.HarnessFail("mini-shell: unknown set flag " + a)
+					}
+				}
+			}
+		}
+	case "test":
+		a := w[1:]
+		neg := false
+		if len(a) > 0 && a[0] == "!" {
+			neg, a = true, a[1:]
+		}
+		if len(a) != 2 || (a[0] != "-e" && a[0] != "-f" && a[0] != "-d" && a[0] != "-s") {
+			s.HarnessFail("mini-shell: unsupported test expression: " + strings.Join(w, " "))
+		}
+		n, err := fs.Lookup(r.cwd, a[1])
+		ok := err == nil
+		switch {
+		case ok && a[0] == "-f":
+			ok = n.Kind == KFile
+		case ok && a[0] == "-d":
+			ok = n.Kind == KDir
+		case ok && a[0] == "-s":
+			ok = n.Kind == KFile && len(n.Data) > 0
+		}
+		if ok == neg {
+			status = 1
+		}
 	case "true", ":":
 	case "false":
 		status = 1
@@ -785,6 +867,15 @@ func (sh *Shell) runOp(r *shellRun, w []string) (int, string) {
 		}
 		if chunks > len(data) {
 			chunks = len(data)
+		}
+		if len(data) == 0 {
+			// an empty output: created, nothing to write
+			if partial {
+				r.errf("op %s: injected failure after creating %s", o.Name, p)
+				return sh.finish(o, 1, "")
+			}
+			o.Written[p] = true
+			continue
 		}
 		csize := (len(data) + chunks - 1) / chunks
 		for off := 0; off < len(data); off += csize {
